@@ -442,13 +442,14 @@ func (m *DynamicPushOnWriteHook) Execute(ctx context.Context, ds datas.Dataset, 
 			return nil, nil
 		}
 
-		m.remote = remoteName
-
-		destDb, err := getDestinationDb(ctx, m.dEnv, m.remote)
+		destDb, err := getDestinationDb(ctx, m.dEnv, remoteName)
 		if err != nil {
 			return nil, err
 		}
 
+		// only remember the new configuration once its destination is resolved,
+		// otherwise the next commit would reuse the previous destination silently
+		m.remote = remoteName
 		m.syncHook.destDb = destDb
 		m.asyncHook.destDb = destDb
 
